@@ -7,6 +7,7 @@ import (
 	"github.com/orda-io/orda/client/pkg/iface"
 	"github.com/orda-io/orda/client/pkg/model"
 	"strings"
+	"sync"
 
 	"golang.org/x/sync/semaphore"
 )
@@ -17,6 +18,8 @@ type DatatypeManager struct {
 	syncManager *SyncManager
 	sema        *semaphore.Weighted
 	dataMap     map[string]iface.Datatype
+	// entering holds the datatypes that are due to subscribe and whose first sync has not got the semaphore yet
+	entering sync.Map
 }
 
 // NewDatatypeManager creates a new instance of DatatypeManager
@@ -36,11 +39,15 @@ func NewDatatypeManager(ctx *context.ClientContext, sm *SyncManager) *DatatypeMa
 // DeliverTransaction delivers a transaction
 func (its *DatatypeManager) DeliverTransaction(wired iface.WiredDatatype) {
 	if its.ctx.Client.SyncType == model.SyncType_REALTIME {
+		if wired.GetState() == model.StateOfDatatype_DUE_TO_SUBSCRIBE {
+			its.entering.Store(wired.GetKey(), wired)
+		}
 		go func() {
 			if !its.sema.TryAcquire(1) {
 
 				return
 			}
+			its.entering.Delete(wired.GetKey())
 			defer func() {
 				its.sema.Release(1)
 				its.deliverPending()
@@ -62,6 +69,14 @@ func (its *DatatypeManager) deliverPending() {
 			its.DeliverTransaction(data)
 		}
 	}
+	// a datatype that is due to subscribe has nothing to push; its first sync may be what gave up
+	its.entering.Range(func(key, data interface{}) bool {
+		its.entering.Delete(key)
+		if wired := data.(iface.WiredDatatype); wired.GetState() == model.StateOfDatatype_DUE_TO_SUBSCRIBE {
+			its.DeliverTransaction(wired)
+		}
+		return true
+	})
 }
 
 // ExistDatatype returns the datatype if the specified key and type
